@@ -326,7 +326,21 @@ func c01Run(c *core.Ctx, idx int) {
 
 			return
 		}
-		vars = append(vars, variant{ids, contents, urlfilter.NewNetworkEngine(s)})
+		eng := urlfilter.NewNetworkEngine(s)
+		if v > 0 && c.Rng.Intn(3) == 0 {
+			// The other public way to build the index (the one the DNS engine
+			// uses): an empty engine to which every scanned rule is added.
+			eng = urlfilter.NewNetworkEngineSkipStorageScan(s)
+			sc := s.NewRuleStorageScanner()
+			for sc.Scan() {
+				r, idx := sc.Rule()
+				if nr, isNet := r.(*rules.NetworkRule); isNet {
+					eng.AddRule(nr, idx)
+				}
+			}
+			c.Event("engines_built_by_AddRule", 1)
+		}
+		vars = append(vars, variant{ids, contents, eng})
 	}
 	s0, _ := util.StorageIDs(vars[0].ids, vars[0].contents, true)
 	all := c01ScanNetwork(s0)
